@@ -128,6 +128,7 @@ type ScriptFS struct {
 	// authentication script
 	AuthInitErr  func(inv *Inv) bool
 	AuthCheckErr func(inv *Inv) bool
+	AuthHold     func(inv *Inv) bool // park this AuthRead / AuthWrite until released
 	Dotu         func(conn int) bool // negotiated dialect per connection, for expected replies
 	// flush hook: called when the implementation's Flush sees target
 	flushes []*Inv
@@ -546,8 +547,17 @@ func (f *ScriptFS) authCheck(fid, afid *go9p.SrvFid, aname string) error {
 	return nil
 }
 
+func (f *ScriptFS) authHold(inv *Inv) {
+	if f.AuthHold != nil && f.AuthHold(inv) {
+		inv.Held = true
+		f.x.Fault("hold")
+		rt.YieldUntil(rt.SiteHold, func() bool { return f.released(inv) })
+		inv.Held = false
+	}
+}
+
 func (f *ScriptFS) authRead(afid *go9p.SrvFid, off uint64, data []byte) (int, error) {
-	f.authInv("authread", afid, fmt.Sprintf("offset=%d count=%d", off, len(data)))
+	f.authHold(f.authInv("authread", afid, fmt.Sprintf("offset=%d count=%d", off, len(data))))
 	for i := range data {
 		data[i] = byte(off) + byte(i)
 	}
@@ -555,7 +565,7 @@ func (f *ScriptFS) authRead(afid *go9p.SrvFid, off uint64, data []byte) (int, er
 }
 
 func (f *ScriptFS) authWrite(afid *go9p.SrvFid, off uint64, data []byte) (int, error) {
-	f.authInv("authwrite", afid, fmt.Sprintf("offset=%d count=%d hash=%x", off, len(data), fnvBytes(data)))
+	f.authHold(f.authInv("authwrite", afid, fmt.Sprintf("offset=%d count=%d hash=%x", off, len(data), fnvBytes(data))))
 	return len(data), nil
 }
 
